@@ -18,6 +18,7 @@ RUNS = {"quick": 3500, "thorough": 60000}
 TIMEOUT = base.TIMEOUT
 CPU_LIMIT = base.CPU_LIMIT
 CHUNK = 50
+ISOLATE = True  # one forked child per run with a hard CPU limit (optimisers may hang inside C code)
 RULE = (
     "driver runs as in c03_driver, mix shifted to CustomDOE point lists with repeated points, raising/NaN-returning functions, NaN recorded, "
     "maximisation and repeated executions; the selection oracle is evaluated after every stored value (store listener) and on every final "
@@ -30,6 +31,9 @@ ASSUMPTIONS = [
     "LP/MILP wrappers report the solver's own solution, evaluated outside the database by design: the selection oracle is not applied to them",
     "a partially evaluated point is never the witness of a least-infeasible violation; as reported point its measure is the lower bound over the constraints it has",
 ]
+
+
+warmup = base.warmup
 
 
 def run(ctx):
